@@ -54,6 +54,9 @@ func runC09Default(r *Run) {
 	ws := 10 + t.Intn(5, "window-size")
 	minW := []time.Duration{ms, 10 * ms, 500 * ms, 2 * time.Second}[t.Intn(4, "min-window")]
 	maxW := minW * time.Duration(1+t.Intn(3, "max-mult"))
+	if t.Chance(8, "uncapped-max-window") {
+		maxW = time.Duration(math.MaxInt64) // "no upper bound on the window"
+	}
 	thr := []time.Duration{0, 100 * time.Microsecond, ms}[t.Intn(3, "threshold")]
 	rec := &recLimit{est: 1000}
 	var strat core.Strategy = strategy.NewSimpleStrategy(1000)
@@ -335,6 +338,9 @@ func runC09Windowed(r *Run) {
 	ws := int32(10 + t.Intn(5, "window-size"))
 	minW := []int64{1e8, 5e8, 1e9}[t.Intn(3, "min-window")]
 	maxW := minW * int64(1+t.Intn(3, "max-mult"))
+	if t.Chance(8, "uncapped-max-window") {
+		maxW = math.MaxInt64
+	}
 	thr := []int64{0, 1e5, 1e6}[t.Intn(3, "threshold")]
 	rec := &recLimit{est: 50}
 	wl, err := limit.NewWindowedLimit("w", minW, maxW, ws, thr, rec, nil)
